@@ -34,7 +34,10 @@
 (*   random   seeded byte-level mutation: anything may happen.             *)
 (*                                                                         *)
 (* Acceptance rule (MustOf / SuccessImpliesBound / HonestSucceeds):        *)
-(*   no fault            => the call succeeds (and is bound);              *)
+(*   no fault            => the call succeeds (and is bound) -- unless the *)
+(*                          request cannot be served (Unservable input     *)
+(*                          classes: an error, with or without an          *)
+(*                          exchange, is the correct outcome);             *)
 (*   some unbind fault   => the call returns an error;                     *)
 (*   always              outcome = ok => bound        (bound: ground truth)*)
 (*   never               a panic (outcome is ok or err).                   *)
@@ -46,7 +49,8 @@ CONSTANTS
     Variants,      \* parameter variants (ranges, counts, tree shapes) chosen by the harness
     MaxFaults,     \* size of a fault plan: 1 = all single corruptions, 2 = + all pairs, ...
     NRandom,       \* random byte-level mutations per message
-    DevUnchecked   \* <<rpc, field>> pairs the abstract client forgets to verify ({} = rpc.go as written)
+    DevUnchecked   \* <<rpc, field>> pairs the abstract client forgets to verify ({} = the client as intended;
+                   \* the selftest cfgs switch single checks off and TLC must find SuccessImpliesBound violated)
 
 \* host -> renter messages of each exchange, in order
 Msgs(r) ==
@@ -67,10 +71,12 @@ Msgs(r) ==
 \* client functions that return the host's answer verbatim: the statement makes no claim
 Informational == {"LatestRevision", "AccountBalance"}
 
-\* requests the client function sends but an honest (reference) host refuses to serve: a read whose
-\* offset is not a multiple of the 64-byte leaf (only offset+length has to be aligned for the request
-\* to be sent); a free of a sector index the contract does not have (the client does not validate its
-\* own request).  HonestSucceeds does not apply; a host can answer them all the same.
+\* input classes that cannot be served: a read whose offset is not a multiple of the 64-byte leaf (the
+\* request validation of core only wants offset+length aligned); a free of a sector index the contract
+\* does not have.  An honest (reference) host refuses them, so HonestSucceeds does not apply: the only
+\* correct outcome is an error -- returned by the client itself without any exchange (rpc.go since the
+\* fix commits ff651f4 / 60c450d), or after the host's refusal.  A host could answer them all the same
+\* (fault resp.All:otherRange): a client that dials and accepts such an answer violates the property.
 Unservable == {"ReadUnaligned", "FreeOutOfRange"}
 
 AllRPCs == {"ReadUnaligned", "FreeOutOfRange", "ReadSector", "WriteSector", "VerifySector", "SectorRoots", "AppendSectors", "FreeSectors",
@@ -163,7 +169,7 @@ Catalog ==
 \* what the client functions verify (field granularity), read off rpc.go
 Checked ==
        {<<"ReadSector", f>> : f \in {"Proof", "DataLength", "Bytes", "All", "Raw"}}
-  \cup {<<"ReadUnaligned", "All">>, <<"FreeOutOfRange", "All">>}   \* INTENDED: rpc.go as written has no such checks (known findings)
+  \cup {<<"ReadUnaligned", "All">>, <<"FreeOutOfRange", "All">>}   \* the client refuses these requests itself (before dialing)
   \cup {<<"WriteSector", f>> : f \in {"Root", "Raw"}}
   \cup {<<"VerifySector", f>> : f \in {"Proof", "Leaf", "All", "Raw"}}
   \cup {<<"SectorRoots", f>> : f \in {"Proof", "Roots", "HostSignature", "All", "Raw"}}
